@@ -40,7 +40,9 @@ RULE = ('case = (record, dt, Signal|AccSignal, p2_plus, explicit n); each case r
         'gen_fa_spectrum(p2_plus), gen_fa_spectrum(n), [gen_fa_spectrum(p2_plus, n) together], generate_fa_spectrum(n_pad '
         'True/False), calc_fa_spectrum() / (p2_plus) / (n), fas2values, fas2signal and max_fa_period through the public '
         'names; relation cases add a second record (linearity), trailing zeros, or a second record of the same shape '
-        'processed back to back while the first results are held. Lengths: EVERY npts 2..130 (x4 quick, x12 thorough; '
+        'processed back to back while the first results are held, or the two-function sequence record -> spectrum -> '
+        'fas2signal -> the returned (complex-valued) Signal/AccSignal asked for fa_spectrum / fa_freqs / max_fa_period / '
+        'gen_fa_spectrum(p2_plus) / (n) and the array-level functions. Lengths: EVERY npts 2..130 (x4 quick, x12 thorough; '
         'explicit n cycles through npts, npts+1, next odd, next even, next pow2, random), every 2^e-1, 2^e, 2^e+1 up to 2048 '
         '(thorough 4096), log-uniform random lengths up to 2048 (thorough 4096), 4 (thorough 32) records just past 2**16. '
         'Record forms: float64, float32, int64, int32/int16/int8/uint8/uint16 filling the dtype range, lists/tuples of '
@@ -61,7 +63,9 @@ RULE = ('case = (record, dt, Signal|AccSignal, p2_plus, explicit n); each case r
         'None/(t0,t1)/(t0,None), correct_me), interaction steps fas2values / fas2signal(stype signal|acc) on the very '
         'array sig.fa_spectrum returns (record with a clearly non-zero mean) - each followed by reads under the lazy '
         'monitor; records >= 64 samples for filters and baseline corrections.')
-ASSUMPTIONS = ['real, finite, 1-D record of length >= 2 (one-sample and float16 records: counted, not judged); dt > 0 finite',
+ASSUMPTIONS = ['finite 1-D record of length >= 2, real or - as returned by the library\'s own fas2signal - complex (judged against '
+               'the DFT of the complex values; Parseval only for real records); one-sample and float16 records: counted, not '
+               'judged; dt > 0 finite',
                'single-precision class: numpy transforms a float32 record in float32 (complex64 result) and a np.float32 dt '
                'makes N*dt a float32 product; such inputs are judged with rtol 1e-5 (bins) / 1e-6 (frequencies) / 1e-4 '
                '(Parseval) instead of 1e-10 / 1e-13 / 1e-9',
@@ -91,7 +95,8 @@ MIN_EVALS = {   # about half of what a normal run reaches
               'max_fa_period==1/f[argmax|F|]': 1000, 'lazy-after-mutation.bins==dt*DFT(current values)': 250,
               'lazy-after-mutation.nbins==N//2': 250, 'lazy-after-mutation.freqs==k/(N*dt)': 250,
               'fas2values.argument-unchanged': 1600, 'fas2signal.argument-unchanged': 500,
-              'argument-unchanged[record]': 20000, 'back-to-back.first-result-intact': 250},
+              'argument-unchanged[record]': 20000, 'back-to-back.first-result-intact': 250,
+              'fas2signal-object.spectrum==source-bins': 170},
     'thorough': {'gen_fa_spectrum.bins==dt*DFT': 9500, 'lazy.bins==dt*DFT': 27000,
                  'generate_fa_spectrum.bins==dt*DFT': 4500, 'calc_fa_spectrum.bins==dt*DFT': 9000,
                  'gen_fa_spectrum.nbins==N//2': 9500, 'lazy.nbins==N//2': 27000,
@@ -105,7 +110,8 @@ MIN_EVALS = {   # about half of what a normal run reaches
                  'max_fa_period==1/f[argmax|F|]': 4000, 'lazy-after-mutation.bins==dt*DFT(current values)': 1600,
                  'lazy-after-mutation.nbins==N//2': 1600, 'lazy-after-mutation.freqs==k/(N*dt)': 1600,
                  'fas2values.argument-unchanged': 6000, 'fas2signal.argument-unchanged': 2000,
-                 'argument-unchanged[record]': 90000, 'back-to-back.first-result-intact': 1000}}
+                 'argument-unchanged[record]': 90000, 'back-to-back.first-result-intact': 1000,
+                 'fas2signal-object.spectrum==source-bins': 1000}}
 EXHAUSTIVE = {'quick': 'every record length 2..130 (4 records each) through every entry point; every 2^e-1, 2^e, 2^e+1, e=3..11',
               'thorough': 'every record length 2..130 (12 records each) through every entry point; every 2^e-1, 2^e, 2^e+1, e=3..12'}
 
@@ -170,14 +176,14 @@ def _record_of(ctx, sig):
     if v.ndim != 1 or v.size < 2:
         ctx.observe('out-of-domain: record shorter than 2 or not 1-D')
         return None
-    if v.dtype.kind not in 'fiu':
-        ctx.observe('out-of-domain: non-real record dtype (%s)' % v.dtype.kind)
+    if v.dtype.kind not in 'fiuc':
+        ctx.observe('out-of-domain: non-numeric record dtype (%s)' % v.dtype.kind)
         return None
     if v.dtype.kind == 'f' and v.dtype.itemsize < 4:
         ctx.observe('not judged: %s record (half precision)' % v.dtype)
         return None
-    loose = (v.dtype.kind == 'f' and v.dtype.itemsize == 4) or isinstance(dt, np.float32)
-    x = v.astype(float)
+    loose = (v.dtype.kind == 'f' and v.dtype.itemsize == 4) or v.dtype == np.complex64 or isinstance(dt, np.float32)
+    x = v.astype(complex) if v.dtype.kind == 'c' else v.astype(float)     # complex: the record fas2signal hands back
     if not np.all(np.isfinite(x)):
         ctx.observe('out-of-domain: NaN/inf in record')
         return None
@@ -263,6 +269,8 @@ def check_spectrum(ctx, where, wit, x, dt, N, fa, fr, bins_label='bins==dt*DFT',
            % (where, len(x), N, dt, None if idx is None else idx[0], None if idx is None else float(fr[idx]),
               None if idx is None else float(fref[idx])))
     # Parseval on the reported bins + the unreported bin floor(N/2) from the record
+    if np.iscomplexobj(x):
+        return              # the one-sided identity needs the Hermitian symmetry of a real record
     with np.errstate(all='ignore'):
         lhs, rhs = O.parseval_sides(x_pad, dt, fa)
     okp = bool(np.isfinite(rhs)) and abs(lhs - rhs) <= T['parseval'] * lhs
@@ -924,6 +932,45 @@ def rel_trailing_zeros(ctx, eqsig, p):
            % (nz, len(x), mode, np.shape(f0), np.shape(f1)))
 
 
+def rel_inverse_object(ctx, eqsig, p):
+    """Two-function sequence: record -> spectrum -> fas2signal -> the returned Signal/AccSignal (its values have a
+    complex dtype) is itself asked for its spectrum. The monitors judge every read / generation / array-level call on it
+    against dt*DFT of its complex values; here: object == array level on it, and its unpadded spectrum gives back the
+    source bins (bin 0 removed). An exception on any of these calls is a violation."""
+    x, dt, clsname, stype = np.asarray(p['values'], dtype=float), p['dt'], p['cls'], p['stype']
+    wit = lambda: dict(p, fn='rel.inverse_object')
+    clause = 'fas2signal-object.spectrum==source-bins'
+    try:
+        src = _spectrum(eqsig, _mk(eqsig, clsname, x, dt), tuple(p['mode']))[0]
+        fas = np.array(src)
+        rec = eqsig.fas2signal(fas, dt, stype=stype)
+        xc = np.asarray(rec.values)
+        order = p.get('first', 'fa_spectrum')
+        obj = (rec.fa_spectrum, rec.fa_freqs) if order == 'fa_spectrum' else (None, getattr(rec, order))
+        obj = (rec.fa_spectrum, obj[1])
+        eqsig.im.max_fa_period(rec)
+        _agree(ctx, wit, xc, dt, obj, eqsig.generate_fa_spectrum(rec), 'fas2signal object: default vs generate_fa_spectrum')
+        rec.gen_fa_spectrum(p2_plus=p['p2_plus'])
+        _agree(ctx, wit, xc, dt, (rec.fa_spectrum, rec.fa_freqs), eqsig.calc_fa_spectrum(rec, p2_plus=p['p2_plus']),
+               'fas2signal object: p2_plus=%d' % p['p2_plus'])
+        ne = rec.npts + p['n_extra']
+        rec.gen_fa_spectrum(n=ne)
+        _agree(ctx, wit, xc, dt, (rec.fa_spectrum, rec.fa_frequencies), eqsig.calc_fa_spectrum(rec, n=ne), 'fas2signal object: n=%d' % ne)
+        eqsig.im.max_fa_period(rec)
+        rec.gen_fa_spectrum(n=rec.npts)
+        back = np.asarray(rec.fa_spectrum)
+        _agree(ctx, wit, xc, dt, (back, rec.fa_freqs), eqsig.calc_fa_spectrum(rec), 'fas2signal object: unpadded')
+        ref = fas.astype(complex)
+        ref[0] = 0.0
+        amp = 2.0 * float(np.sum(np.abs(fas[1:])))
+        ok = back.shape == ref.shape and tol.close(back, ref, scale=amp, rtol=RTOL_BIN)
+        _judge(ctx, ok, clause, wit,
+               lambda: 'spectrum of the object returned by fas2signal (%d bins, stype=%r) is not the source spectrum without bin 0: %s'
+               % (len(fas), stype, tol.describe(back, ref, scale=amp, rtol=RTOL_BIN) if back.shape == ref.shape else 'shapes'))
+    except Exception as e:
+        ctx.exception(clause, dict(p, fn='rel.inverse_object'), e)
+
+
 def rel_back_to_back(ctx, eqsig, p):
     """Two different records of the same shape processed back to back while the first results are still held: the held
     arrays (each judged by its monitor when it was produced) are bit-for-bit what they were after the second call."""
@@ -1038,7 +1085,9 @@ def _apply_mutator(eqsig, s, m, held):
         for _ in range(int(m[1]) if len(m) > 1 else 1):
             eqsig.fas2values(s.fa_spectrum, s.dt)
     elif name == 'fas2signal':
-        eqsig.fas2signal(s.fa_spectrum, s.dt, stype=m[1])
+        back = eqsig.fas2signal(s.fa_spectrum, s.dt, stype=m[1])
+        back.fa_freqs                         # the reconstructed (complex-valued) object answers for its own record
+        back.fa_spectrum
     elif name == 'reset_values':
         s.reset_values(hold('reset_values argument', m[1]))
     elif name == 'add_constant':
@@ -1330,6 +1379,12 @@ def run_shard(ctx):
                 rel_trailing_zeros(ctx, eqsig, q)
             except Exception as e:
                 ctx.exception('trailing-zeros', dict(q, fn='rel.trailing_zeros'), e)
+        if ci % 3 == 2:
+            mode = [('default',), ('n', p['n']), ('nopad',)][int(rng.integers(3))]
+            q = {'values': gen.record(rng, npts)[0] + float(rng.integers(0, 2)), 'dt': dtr, 'cls': clsname, 'mode': list(mode),
+                 'stype': 'signal' if rng.random() < 0.5 else 'acc', 'p2_plus': int(rng.integers(0, 3)),
+                 'n_extra': int(rng.integers(0, 12)), 'first': ['fa_spectrum', 'fa_freqs', 'fa_frequencies'][int(rng.integers(3))]}
+            rel_inverse_object(ctx, eqsig, q)
         if ci % 4 == 2:
             mode = [('default',), ('p2', p['p2_plus']), ('n', p['n']), ('nopad',)][int(rng.integers(4))]
             q = {'x1': gen.record(rng, npts)[0], 'x2': gen.record(rng, npts)[0], 'dt': dtr, 'mode': list(mode), 'cls': clsname,
@@ -1413,6 +1468,8 @@ def replay(w):
         rel_trailing_zeros(ctx, eqsig, w)
     elif fn == 'rel.back_to_back':
         rel_back_to_back(ctx, eqsig, w)
+    elif fn == 'rel.inverse_object':
+        rel_inverse_object(ctx, eqsig, w)
     elif fn == 'rel.history':
         rel_history(ctx, eqsig, w)
     elif fn == 'fas2values':
